@@ -81,6 +81,7 @@ type world struct {
 		names  []string
 		lookup bool
 		age    int64
+		nopoll bool // automatic polling disabled
 	}
 	closed bool
 	// slices handles have returned, with a copy of what they held then
@@ -121,6 +122,11 @@ func (w *world) newStore(cacheKind string, dead bool, freshCfg bool) {
 		w.cfg.names = names
 		w.cfg.lookup = r.Intn(2) == 0
 		w.cfg.age = pick(r, []int64{0, 0, -5, 10, 3600})
+		// one configuration in six: automatic polling disabled (a negative PollInterval, no ticker);
+		// the caller refreshes by hand.  Everything else - construction, the cache written after
+		// the initial fetch, lookups, refreshes, expiry - is as with a poller; only the poller's
+		// shutdown flush does not exist.
+		w.cfg.nopoll = r.Intn(6) == 0
 	}
 	w.hands = map[string]setec.Secret{}
 	w.closed = false
@@ -250,6 +256,10 @@ func (w *world) newStore(cacheKind string, dead bool, freshCfg bool) {
 	// NewStore sorts and compacts the caller's slice in place: hand it a copy
 	cfg := setec.StoreConfig{Client: client, Secrets: append([]string(nil), w.cfg.names...), AllowLookup: w.cfg.lookup, Cache: cacheIface,
 		ExpiryAge: time.Duration(w.cfg.age) * time.Second, Logf: func(string, ...any) {}, PollTicker: w.tick, TimeNow: w.now}
+	if w.cfg.nopoll {
+		cfg.PollTicker = nil
+		cfg.PollInterval = -1
+	}
 	if r.Intn(40) == 0 && freshCfg {
 		cfg.Client = nil
 		clientKind = "nil"
@@ -277,7 +287,7 @@ func (w *world) newStore(cacheKind string, dead bool, freshCfg bool) {
 	case <-returned:
 	case <-time.After(time.Hour): // virtual time: far beyond any deadline or scripted recovery
 		// construction never returned; its goroutine cannot be stopped, so report and end the run
-		emit("new\trawcache=-\tnames=%s\tlookup=%s\tage=%d\tcache=%s\twfail=0\tclient=%s\tfiledoc=%s\tdeadline=%d\tnow=%d\tsvc=%s\tres=hang\telapsed=3600000\treqs=\tsnap=-\twrites=-",
+		emit("new\tnopoll="+b01(w.cfg.nopoll)+"\trawcache=-\tnames=%s\tlookup=%s\tage=%d\tcache=%s\twfail=0\tclient=%s\tfiledoc=%s\tdeadline=%d\tnow=%d\tsvc=%s\tres=hang\telapsed=3600000\treqs=\tsnap=-\twrites=-",
 			xlist(w.cfg.names), b01(w.cfg.lookup), w.cfg.age, cacheDesc, clientKind, fileDoc, deadline, w.clock, w.svc.state())
 		out.Flush()
 		os.Exit(0)
@@ -295,7 +305,7 @@ func (w *world) newStore(cacheKind string, dead bool, freshCfg bool) {
 		rawCache = hb(w.cache.data)
 		w.cache.mu.Unlock()
 	}
-	emit("new\trawcache=%s\tnames=%s\tlookup=%s\tage=%d\tcache=%s\twfail=%s\tclient=%s\tfiledoc=%s\tdeadline=%d\tnow=%d\tsvc=%s\tres=%s\telapsed=%d\treqs=%s\tsnap=%s\twrites=%s",
+	emit("new\tnopoll="+b01(w.cfg.nopoll)+"\trawcache=%s\tnames=%s\tlookup=%s\tage=%d\tcache=%s\twfail=%s\tclient=%s\tfiledoc=%s\tdeadline=%d\tnow=%d\tsvc=%s\tres=%s\telapsed=%d\treqs=%s\tsnap=%s\twrites=%s",
 		rawCache, xlist(w.cfg.names), b01(w.cfg.lookup), w.cfg.age, cacheDesc, b01(w.cache.writeFail), clientKind, fileDoc, deadline, w.clock, w.svc.state(), res, elapsed.Milliseconds(), w.svc.reqs(), snap, w.cache.takeWrites())
 	w.svc.mu.Lock()
 	w.svc.script = map[string][]string{}
@@ -441,7 +451,7 @@ func (w *world) step() {
 		emit("lookup\talso=%s\tn=%s\tnow=%d\tres=%s\treqs=%s\tsnap=%s\twrites=%s", also, hx(n), w.clock, res, w.svc.reqs(), snapString(w.st), w.cache.takeWrites())
 	case x < 14: // poll (explicit refresh or background tick)
 		kind := "refresh"
-		if r.Intn(3) == 0 {
+		if r.Intn(3) == 0 && !w.cfg.nopoll {
 			kind = "bgpoll"
 		}
 		w.svc.mu.Lock()
